@@ -31,7 +31,7 @@ class C10(ProgramProperty):
             "converter that overlap records inherited from the inputs. Every input is observed (records, prefix_map, "
             "reverse_prefix_map, bimap, pattern_map, get_prefixes, get_uri_prefixes, expand / standardize / compress "
             "probes) before the derivation, after it, and after every follow-up. Non-trivial = the derivation "
-            "succeeded and at least one follow-up merged into a record inherited from an input. 20 % of the remappings / rewirings are degenerate (empty mapping, unknown names only) and 30 % of the restrictions are all-or-nothing, so that an 'optimised' identity return shows.")
+            "succeeded and at least one follow-up merged into a record inherited from an input. 20 % of the remappings / rewirings are degenerate (empty mapping, unknown names only) and 30 % of the restrictions are all-or-nothing, so that an 'optimised' identity return shows. In 30 % of the cases the inputs are themselves products of a derivation (slice of a slice, chain of a chain, deep copy, pickle).")
 
     def budget(self, tier):
         return 1500 if tier == "quick" else 40000
@@ -59,6 +59,20 @@ class C10(ProgramProperty):
         probes_p = rng.sample(pa, min(4, len(pa))) + [uncps(b[0]["p"])]
         probes_u = [u + "1" for u in rng.sample(ua, min(3, len(ua)))]
         steps = [init_step(0, a), init_step(1, b)]
+        origin = "constructed"
+        if rng.random() < 0.3:
+            # the inputs are themselves products of a derivation (a slice of a slice, a chain of a chain, a copy): whatever
+            # a derivation builds, interns or remembers must not tie its result to later results of equal content
+            steps, origin = [], "derived"
+            for slot, recs_ in ((0, a), (1, b)):
+                k = rng.choice(["sub", "chain", "deepcopy", "pickle"])
+                steps.append(init_step(20 + slot, recs_))
+                if k == "sub":
+                    steps.append({"op": "sub", "dst": slot, "src": 20 + slot, "prefixes": [r["p"] for r in recs_]})
+                elif k == "chain":
+                    steps.append({"op": "chain", "dst": slot, "srcs": [20 + slot], "cs": True})
+                else:
+                    steps.append({"op": "clone", "dst": slot, "src": 20 + slot, "how": k})
         steps += observe(0, probes_p, probes_u) + observe(1, probes_p, probes_u)
         kind = rng.choice(["chain", "chain", "chain_rev", "chain_ci", "sub", "remap_curie", "remap_uri", "rewire", "discover"])
         D = 5
@@ -124,7 +138,7 @@ class C10(ProgramProperty):
                 steps.append({"op": "add_record", "c": D, "record": new, "merge": rng.random() < 0.85})
             steps += [q(D, "records")]
             steps += observe(0, probes_p, probes_u) + observe(1, probes_p, probes_u)
-        return {"steps": steps, "kind": kind.split(":")[0], "D": D, "tags": ["derive=" + kind, f"followups={nf}"]}
+        return {"steps": steps, "kind": kind.split(":")[0], "D": D, "tags": ["derive=" + kind, f"followups={nf}", "inputs=" + origin]}
 
     def run_impl(self, case):
         """Also observe object identity: the derived converter must not hold any Record object of an input
